@@ -31,3 +31,45 @@ func VerifC06Release(t *Tree, disable bool) {
 		c.Reset()
 	}
 }
+
+// VerifC06Generating tells whether the tree's disk layer is still being generated (genMarker != nil). Access only.
+func VerifC06Generating(t *Tree) bool {
+	if t == nil {
+		return false
+	}
+	t.lock.RLock()
+	defer t.lock.RUnlock()
+	for _, l := range t.layers {
+		if dl, ok := l.(*diskLayer); ok {
+			dl.lock.RLock()
+			g := dl.genMarker != nil
+			dl.lock.RUnlock()
+			if g {
+				return true
+			}
+		}
+	}
+	return false
+}
+
+// VerifC06Abandon stops the generator goroutine of a tree that is being replaced (the same hand-shake Disable uses) and
+// returns its cache chunks, WITHOUT touching the database (Disable would mark the snapshot disabled on disk).
+func VerifC06Abandon(t *Tree) {
+	if t == nil {
+		return
+	}
+	t.lock.Lock()
+	defer t.lock.Unlock()
+	for _, l := range t.layers {
+		if dl, ok := l.(*diskLayer); ok {
+			if dl.genAbort != nil {
+				abort := make(chan *generatorStats)
+				dl.genAbort <- abort
+				<-abort
+			}
+			if dl.cache != nil {
+				dl.cache.Reset()
+			}
+		}
+	}
+}
